@@ -501,9 +501,11 @@ def gen_tie_world(rng: random.Random, n_steps: int) -> Dict[str, Any]:
         c = world.at(rng.uniform(-60, 60), rng.uniform(-60, 60)) if k > 2 else c0
         v = {"id": rng.choice(["cab", "v", "x", "taxi"]) + f"{k+1}", "lat": c[0], "lon": c[1], "mech": "leaf_50",
              "soc": rng.choice([0.07, 0.09, 0.12, 0.5, 0.8]) if k > 1 else 0.055}
-        if rng.random() < 0.25:
+        if k >= 3 and rng.random() < 0.5:
             v["schedule"] = "day"
             v["home_base"] = "b1"
+            v["lat"], v["lon"] = c0          # human drivers start at home: parked until the shift begins
+            v["soc"] = 0.8
         vehicles.append(v)
         if use_fleets:
             for f in rng.choice([["fa"], ["fb"], ["fa", "fb"], ["fa", "fb"], []]):
@@ -512,8 +514,16 @@ def gen_tie_world(rng: random.Random, n_steps: int) -> Dict[str, Any]:
     for k in range(rng.randint(8, 20)):
         o = world.at(rng.uniform(-300, 300), rng.uniform(-300, 300))
         d = world.at(rng.uniform(-300, 300), rng.uniform(-300, 300))
-        requests.append({"id": f"q{k+1:02d}", "o": o, "d": d, "dep": (rng.randrange(0, dt * n_steps * 2 // 3) // dt) * dt, "pax": 1,
+        requests.append({"id": f"q{k+1:02d}", "o": o, "d": d, "dep": (rng.randrange(dt * 12, dt * n_steps * 2 // 3) // dt) * dt, "pax": 1,
                          "fleet": rng.choice(["fa", "fb"]) if use_fleets else None})
+    # equally dense clusters of early requests in three different search cells (a tie for "the densest request hex"
+    # that human drivers leaving their base head for), far enough away to stay unserved for a while
+    for ci, cell in enumerate(neigh[:3]):
+        cc = h3.h3_to_geo(h3.h3_to_center_child(cell, 15))
+        for j in range(2):
+            o = (cc[0] + 0.0004 * j, cc[1] + 0.0003 * j)
+            requests.append({"id": f"far{ci}{j}", "o": o, "d": (o[0] + 0.002, o[1]), "dep": 0, "pax": 1,
+                             "fleet": rng.choice(["fa", "fb"]) if use_fleets else None})
     requests.sort(key=lambda r: (r["dep"], r["id"]))
     # overlapping regions (coarse and search resolution around station sa) priced differently in the same window
     prices = []
@@ -522,9 +532,9 @@ def gen_tie_world(rng: random.Random, n_steps: int) -> Dict[str, Any]:
             for cid in ("DCFC", "LEVEL_2", "LEVEL_1"):
                 prices.append({"time": t, "target": h3.h3_to_parent(ga, res), "charger_id": cid, "price": price + (0.01 if t else 0.0)})
                 prices.append({"time": t, "target": h3.h3_to_parent(gb, res), "charger_id": cid, "price": price + (0.01 if t else 0.0)})
-    w = {"name": "ties", "dt": dt, "start": 0, "end": dt * n_steps, "cancel": 600, "vehicles": vehicles, "requests": requests,
+    w = {"name": "ties", "dt": dt, "start": 0, "end": dt * n_steps, "cancel": 3000, "vehicles": vehicles, "requests": requests,
          "stations": stations, "bases": bases, "prices": prices, "price_key": "geoid", "focus": "ties",
-         "schedules": [("day", "00:00:00", _hms(dt * (n_steps // 2)))], "rate": (3.0, 0.0, 3.0),      # equal request values
+         "schedules": [("day", _hms(dt * 6), _hms(dt * (n_steps - 5)))], "rate": (3.0, 0.0, 3.0),      # equal request values
          "dispatcher": {"charging_range_km_threshold": 20, "charging_range_km_soft_threshold": 60}}
     if use_fleets:
         w["fleets"] = fl
